@@ -320,6 +320,23 @@ def _spec_helpers():
             I.ctx.fact(c(t) * c(t) + s_(t) * s_(t) == 1)
         return mk(z3.And(c(A + B) == c(A) * c(B) - s_(A) * s_(B), s_(A + B) == s_(A) * c(B) + c(A) * s_(B)))
 
+    @reg("observed")
+    def observed(I, args, kw):
+        """n-th recorded operation on an opaque array (dict with op / index / args)."""
+        obs = getattr(I.ctx, "observations", [])
+        n = args[0]
+        want = args[1] if len(args) > 1 else None
+        sel = [o for o in obs if want is None or o["op"] == want]
+        if n >= len(sel):
+            raise PyRaise("IndexError", f"only {len(sel)} observations")
+        o = sel[n]
+        return o.get("index") if o["op"] == "getitem" else {"args": tuple(o.get("args", ())), **o.get("kwargs", {})}
+
+    @reg("num_observed")
+    def num_observed(I, args, kw):
+        obs = getattr(I.ctx, "observations", [])
+        return len([o for o in obs if len(args) == 0 or o["op"] == args[0]])
+
     @reg("origin")
     def origin(I, args, kw):
         return Sym(z3.Bool("is_origin"), "bool")
